@@ -843,7 +843,8 @@ def run(ctx):
     rank = {"roundtrip": 0, "array": 0, "resolve": 1, "loadmatrix": 2, "detect": 3}
     picked, seen_kinds = [], set()
     for item in sorted(oracle_fail, key=lambda x: rank.get(x[1].get("mode"), 9)):
-        kind = (item[1].get("mode"), item[1].get("carrier") or (item[1].get("target") or {}).get("k"))
+        tgt = item[1].get("target")
+        kind = (item[1].get("mode"), item[1].get("carrier") or (tgt if isinstance(tgt, str) else (tgt or {}).get("k")))
         if kind not in seen_kinds:
             seen_kinds.add(kind)
             picked.append(item)
